@@ -3,6 +3,13 @@ import json, os
 ROOT = os.path.dirname(os.path.dirname(os.path.abspath(__file__)))
 
 CHECKS = {
+    "C19": dict(
+        category="fault_enumeration",
+        text="System-call level fault and crash enumeration with strace on the real file-to-file entry points (Rust and the real Python extension): SIGKILL before every system call of the output-writing window, errno injection at every call, an audit of the trace (rename-only replacement from a completely written sibling), and concurrent writers/readers with injected delays. All crash points of the traced runs are enumerated, not sampled.",
+        design_ref="DESIGN.md §4 C19",
+        note="POSIX rename on the sandbox file system; no power-loss durability claim; the guarded crash-point hook suggested by the property was not needed (strace reaches every point)",
+        technique="syscall-level crash-point and fault enumeration (strace --inject) + trace audit + race workload",
+    ),
     "C14": dict(
         category="exploration",
         text="Robustness runtime monitor: mutated programs (token and byte level), shipped sources, token soup and random bytes go through every tool entry point in crash-isolated shard processes with an 8 MiB stack; panics are caught and located, a dead process is blamed on the input whose BEGIN marker has no END, a watchdog stop is confirmed by an isolated re-run with a larger budget before it counts as non-termination; modern compile errors must lie inside the text they name.",
